@@ -29,6 +29,8 @@ type Params struct {
 	MaxOps    int // marks+resets per partition
 	Gates     map[string]bool
 	CloseAny  bool
+	ErrBuf    int  // ChannelBufferSize (capacity of every Errors() channel)
+	SlowErr   bool // the application reads Errors() only when the controller lets it (a slow, but servicing, reader)
 }
 
 func atoi(v url.Values, k string, def int) int {
@@ -45,7 +47,8 @@ func atoi(v url.Values, k string, def int) int {
 func init() {
 	gx.RegisterRig("om", func(v url.Values) (*gx.Scenario, error) {
 		p := &Params{NParts: atoi(v, "np", 1), Auto: atoi(v, "auto", 1) == 1, Retention: atoi(v, "ret", 0) == 1, Initial: v.Get("init"),
-			RetryMax: atoi(v, "rm", 1), MaxOps: atoi(v, "ops", 2), CloseAny: atoi(v, "closeany", 1) == 1}
+			RetryMax: atoi(v, "rm", 1), MaxOps: atoi(v, "ops", 2), CloseAny: atoi(v, "closeany", 1) == 1,
+			ErrBuf: atoi(v, "errbuf", 16), SlowErr: atoi(v, "slowerr", 0) == 1}
 		if p.Initial == "" {
 			p.Initial = "none"
 		}
@@ -68,15 +71,17 @@ type pair struct {
 }
 
 type pstate struct {
-	pom       sarama.PartitionOffsetManager
-	calls     []string // call log: M<off>/<meta> or R<off>/<meta>
-	marked    map[pair]bool
-	resets    []int64
-	latest    *pair
-	nops      int
-	initial   pair
-	errs      int
-	errClosed bool
+	pom        sarama.PartitionOffsetManager
+	calls      []string // call log: M<off>/<meta> or R<off>/<meta>
+	marked     map[pair]bool
+	resets     []int64
+	latest     *pair
+	nops       int
+	initial    pair
+	errs       int
+	errClosed  bool
+	errOut     int
+	errPermits chan struct{}
 }
 
 type rig struct {
@@ -155,10 +160,10 @@ func run(c *gx.Ctl, p *Params) *gx.Outcome {
 	if p.Retention {
 		conf.Consumer.Offsets.Retention = time.Hour
 	}
-	conf.ChannelBufferSize = 16
+	conf.ChannelBufferSize = p.ErrBuf
 
 	for i := 0; i < p.NParts; i++ {
-		r.ps = append(r.ps, &pstate{marked: map[pair]bool{}})
+		r.ps = append(r.ps, &pstate{marked: map[pair]bool{}, errPermits: make(chan struct{}, 64)})
 	}
 	go func() {
 		client, err := sarama.NewClient([]string{"b1:9092"}, conf)
@@ -198,14 +203,23 @@ func run(c *gx.Ctl, p *Params) *gx.Outcome {
 				})
 			}
 			go func() {
-				for range pom.Errors() {
+				for {
+					if p.SlowErr {
+						<-ps.errPermits
+					}
+					_, ok := <-pom.Errors()
 					r.mu.Lock()
+					if p.SlowErr && ps.errOut > 0 {
+						ps.errOut--
+					}
+					if !ok {
+						ps.errClosed = true
+						r.mu.Unlock()
+						return
+					}
 					ps.errs++
 					r.mu.Unlock()
 				}
-				r.mu.Lock()
-				ps.errClosed = true
-				r.mu.Unlock()
 			}()
 		}
 		r.mu.Lock()
@@ -267,11 +281,28 @@ func (r *rig) inflight() bool {
 func (r *rig) actors() []gx.Actor {
 	r.mu.Lock()
 	defer r.mu.Unlock()
-	if !r.ready || r.closing {
+	if !r.ready {
 		return nil
 	}
 	p := r.p
 	var acts []gx.Actor
+	if r.closing {
+		// a slow reader keeps servicing Errors() while the manager closes
+		if p.SlowErr {
+			for k, ps := range r.ps {
+				k, ps := k, ps
+				if ps.errOut == 0 && !ps.errClosed {
+					acts = append(acts, gx.Actor{Label: fmt.Sprintf("readerr:p%d", k), Rank: 2, Variants: []gx.Variant{{Do: func() {
+						r.mu.Lock()
+						ps.errOut++
+						r.mu.Unlock()
+						ps.errPermits <- struct{}{}
+					}}}})
+				}
+			}
+		}
+		return acts
+	}
 	for k, ps := range r.ps {
 		k, ps := k, ps
 		if ps.nops >= p.MaxOps {
@@ -342,7 +373,20 @@ func (r *rig) actors() []gx.Actor {
 	if p.Auto && !r.inflight() && (r.c.HaltAfterPrefix || r.c.Trailing("tick:") < 1) {
 		acts = append(acts, gx.Actor{Label: "tick:autocommit", Rank: 3, Variants: []gx.Variant{{Do: func() { time.Sleep(time.Second) }}}})
 	}
-	if !r.commitRunning {
+	if p.SlowErr {
+		for k, ps := range r.ps {
+			k, ps := k, ps
+			if ps.errOut == 0 && !ps.errClosed && ps.errs < 4 {
+				acts = append(acts, gx.Actor{Label: fmt.Sprintf("readerr:p%d", k), Rank: 2, Variants: []gx.Variant{{Do: func() {
+					r.mu.Lock()
+					ps.errOut++
+					r.mu.Unlock()
+					ps.errPermits <- struct{}{}
+				}}}})
+			}
+		}
+	}
+	if !r.commitRunning || p.SlowErr {
 		acts = append(acts, gx.Actor{Label: "close", Rank: 4, Variants: []gx.Variant{{Do: r.doClose}}})
 	}
 	return acts
@@ -353,6 +397,10 @@ func (r *rig) doClose() {
 	r.closing = true
 	r.commitsAtClose = len(r.cl.Group(group).Commits)
 	r.mu.Unlock()
+	if r.p.SlowErr {
+		// the application keeps servicing Errors() while it closes (as the API requires), at its own pace:
+		// the controller still decides when each error is taken
+	}
 	go func() {
 		for _, ps := range r.ps {
 			ps.pom.AsyncClose()
